@@ -18,6 +18,7 @@
 #include <etl/_type_traits/is_implicit_default_constructible.hpp>
 #include <etl/_type_traits/is_move_assignable.hpp>
 #include <etl/_type_traits/is_nothrow_swappable.hpp>
+#include <etl/_type_traits/is_swappable.hpp>
 #include <etl/_type_traits/unwrap_reference.hpp>
 #include <etl/_utility/forward.hpp>
 #include <etl/_utility/move.hpp>
@@ -154,6 +155,7 @@ inline constexpr auto is_tuple_like<etl::pair<T, U>> = true;
 
 /// \brief Swaps the contents of x and y. Equivalent to x.swap(y).
 template <typename T1, typename T2>
+    requires(is_swappable_v<T1> and is_swappable_v<T2>)
 constexpr auto swap(pair<T1, T2>& lhs, pair<T1, T2>& rhs) noexcept(noexcept(lhs.swap(rhs))) -> void
 {
     lhs.swap(rhs);
